@@ -608,3 +608,32 @@ pub fn unnoised_outputs(root: &Relation, protected: &dyn Fn(&str) -> bool) -> Ve
         .filter_map(|(f, w)| w.map(|w| (f.name().to_string(), w)))
         .collect()
 }
+
+
+/// The bound of the per-unit contribution cap below a key-release threshold: the literal `n` of
+/// a filter `_CONTRIBUTION_INDEX_ <= n` found in the input of the threshold's noise map.
+pub fn cap_below(th: &Threshold) -> Option<f64> {
+    let mut best: Option<f64> = None;
+    for n in nodes(&th.noise.input) {
+        if let Relation::Map(m) = n {
+            if let Some(f) = m.filter() {
+                let mut stack = vec![f.clone()];
+                while let Some(e) = stack.pop() {
+                    if let Some((fun, args)) = func(&e) {
+                        if matches!(fun, F::LtEq) && args.len() == 2 {
+                            if let (Expr::Column(c), Expr::Value(v)) = (&args[0], &args[1]) {
+                                if c.last().map_or(false, |l| l.contains("_CONTRIBUTION_INDEX_")) {
+                                    if let Ok(x) = v.to_string().parse::<f64>() {
+                                        best = Some(best.map_or(x, |b: f64| b.min(x)));
+                                    }
+                                }
+                            }
+                        }
+                        stack.extend(args);
+                    }
+                }
+            }
+        }
+    }
+    best
+}
